@@ -29,6 +29,9 @@ var stubPkgs = []string{
 	"github.com/DataDog/datadog-go/v5/statsd",
 	"github.com/mustafaturan/bus",
 	"log",
+	"github.com/labstack/gommon/log",
+	"github.com/labstack/gommon/color",
+	"github.com/lestrrat-go/jwx/v2/jwk",
 }
 
 // packages that are modelled: a function of these packages that has no
@@ -69,7 +72,8 @@ var interpretablePrefixes = []string{
 	"(encoding/json.Delim).String", "(encoding/json.Number).",
 	"io.NopCloser", "(io.nopCloser).", "(io.nopCloserWriterTo).",
 	"github.com/labstack/echo/v4.NewHTTPError", "(*github.com/labstack/echo/v4.HTTPError).",
-	"(*net/http.Request).Context", "(*net/http.Request).WithContext",
+	"(runtime.errorString).", "(*runtime.TypeAssertionError).",
+	"(*net/http.Request).Context", "(*net/http.Request).WithContext", "(*net/http.Request).UserAgent", "(*net/http.Request).Referer",
 	"(*github.com/golang-jwt/jwt/v4.SigningMethodRSA).Alg", "(*github.com/golang-jwt/jwt/v4.SigningMethodHMAC).Alg",
 	"(*github.com/golang-jwt/jwt/v4.RegisteredClaims).Verify", "(github.com/golang-jwt/jwt/v4.RegisteredClaims).Verify",
 	"github.com/golang-jwt/jwt/v4.verifyAud", "github.com/golang-jwt/jwt/v4.verifyIss",
@@ -1019,6 +1023,14 @@ func init() {
 	E("runtime.NumGoroutine", func(fr *frame, args []value) value { return len(fr.i.path.sched.threads) })
 	E("runtime.Gosched", func(fr *frame, args []value) value { fr.i.path.sched.yield("gosched"); return nil })
 	E("runtime.GC", func(fr *frame, args []value) value { return nil })
+	E("runtime.Stack", func(fr *frame, args []value) value { return 0 })
+
+	// ---- request path (C16 route harness): requests built by the harnesses carry no
+	// form, no query string and Content-Length 0, for which echo's DefaultBinder.Bind
+	// binds nothing (the target structs of /repo have no param/query tags) and
+	// Request.FormValue finds nothing.
+	E("(*github.com/labstack/echo/v4.DefaultBinder).Bind", func(fr *frame, args []value) value { return iface{} })
+	E("(*net/http.Request).FormValue", func(fr *frame, args []value) value { return "" })
 	E("runtime/debug.Stack", func(fr *frame, args []value) value { return []value{} })
 }
 
